@@ -11,6 +11,7 @@ package keeper
 
 // WorkerRelease: settle the provider's accrued income up to this block and stop earning for this shard.
 //@ func (Keeper) WorkerRelease(ctx, order, shard) (err)
+//@   nopanic [C02.wrelease.nopanic] when order != nil ==> order.Amount.Amount >= 0 && validDenom(order.Amount.Denom)
 //@   requires order != nil && shard != nil ==> (has(Worker, sprintf("%s-%s", order.Amount.Denom, shard.Sp)) ==> Worker[sprintf("%s-%s", order.Amount.Denom, shard.Sp)].Workername == sprintf("%s-%s", order.Amount.Denom, shard.Sp))
 //@   modifies Worker[sprintf("%s-%s", order.Amount.Denom, shard.Sp)]
 //@   ensures [C04.release.found] err == nil ==> order != nil && shard != nil && old(has(Worker, sprintf("%s-%s", order.Amount.Denom, shard.Sp))) && has(Worker, sprintf("%s-%s", order.Amount.Denom, shard.Sp))
@@ -23,10 +24,11 @@ package keeper
 //@   ensures [C04.release.last] err == nil ==> Worker[sprintf("%s-%s", order.Amount.Denom, shard.Sp)].LastRewardAt == H
 //@       && Worker[sprintf("%s-%s", order.Amount.Denom, shard.Sp)].Workername == sprintf("%s-%s", order.Amount.Denom, shard.Sp)
 //@       && Worker[sprintf("%s-%s", order.Amount.Denom, shard.Sp)].Reward.Denom == old(Worker[sprintf("%s-%s", order.Amount.Denom, shard.Sp)].Reward.Denom)
-//@   ensures [C04.release.err] err != nil ==> Worker[sprintf("%s-%s", order.Amount.Denom, shard.Sp)] == old(Worker[sprintf("%s-%s", order.Amount.Denom, shard.Sp)])
+//@   ensures [C04.release.err] err != nil ==> Worker[sprintf("%s-%s", order.Amount.Denom, shard.Sp)] == old(Worker[sprintf("%s-%s", order.Amount.Denom, shard.Sp)]) && (has(Worker, sprintf("%s-%s", order.Amount.Denom, shard.Sp)) <==> old(has(Worker, sprintf("%s-%s", order.Amount.Denom, shard.Sp))))
 
 // WorkerAppend: start earning for this shard; income since the shard's creation height is credited at once.
 //@ func (Keeper) WorkerAppend(ctx, order, shard) (err)
+//@   nopanic [C02.wappend.nopanic] when order != nil ==> order.Amount.Amount >= 0 && validDenom(order.Amount.Denom)
 //@   requires order != nil && shard != nil ==> (has(Worker, sprintf("%s-%s", order.Amount.Denom, shard.Sp)) ==> Worker[sprintf("%s-%s", order.Amount.Denom, shard.Sp)].Workername == sprintf("%s-%s", order.Amount.Denom, shard.Sp))
 //@   modifies Worker[sprintf("%s-%s", order.Amount.Denom, shard.Sp)]
 //@   ensures [C04.append.ok] err == nil ==> order != nil && shard != nil && has(Worker, sprintf("%s-%s", order.Amount.Denom, shard.Sp))
@@ -44,6 +46,7 @@ package keeper
 //@       ==> Worker[sprintf("%s-%s", order.Amount.Denom, shard.Sp)].Storage == old(Worker[sprintf("%s-%s", order.Amount.Denom, shard.Sp)].Storage) + shard.Size_
 //@   ensures [C04.append.last] err == nil ==> Worker[sprintf("%s-%s", order.Amount.Denom, shard.Sp)].LastRewardAt == H
 //@       && Worker[sprintf("%s-%s", order.Amount.Denom, shard.Sp)].Workername == sprintf("%s-%s", order.Amount.Denom, shard.Sp)
+//@   ensures [C04.append.err] err != nil ==> Worker[sprintf("%s-%s", order.Amount.Denom, shard.Sp)] == old(Worker[sprintf("%s-%s", order.Amount.Denom, shard.Sp)]) && (has(Worker, sprintf("%s-%s", order.Amount.Denom, shard.Sp)) <==> old(has(Worker, sprintf("%s-%s", order.Amount.Denom, shard.Sp))))
 
 // Claim: pays the whole-coin part of the accrued income and keeps the fraction.
 //@ func (Keeper) Claim(ctx, denom, sp) (coin, err)
